@@ -14,8 +14,20 @@ The harness additionally checks on the implementation's outputs: caller's table
 columns, dtypes --, non-drift columns of the result identical, result position
 == float(position) - float(drift of the frame) bit for bit (one correctly
 rounded operation), order independence, rigid motion removed.
+
+Route T.  tools/py2coq_drift.py re-translates the CURRENT text of compute_drift /
+subtract_drift (trackpy/motion.py) and guess_pos_columns (trackpy/utils.py; the
+text of pandas_sort is pinned) into coq/Gen/drift.v before the proofs are built
+(pandas operations stay named primitives: the record `pandas` of
+Model/PyDrift.v, interpreted with the meaning of Model/Drift.v for all position
+columns at once).  Proofs/DriftGen.v proves the generated functions equal to the
+hand-written model, column by column, for all inputs, and Properties/C18.v
+restates the headline theorems for them (C18_gen_*).  A source that leaves the
+translatable subset, or whose translation no longer satisfies those proofs, is
+reported through chk.proof_broken; the correspondence run below still takes
+place, so a concrete failing input is searched for as well.
 """
-import json
+import json, os, sys, hashlib
 import numpy as np
 import pandas as pd
 from fractions import Fraction
@@ -36,6 +48,73 @@ CODES = {
     32: 're-measured drift is not zero although every measured frame follows a measured one',
 }
 POSN = {2: ['y', 'x'], 3: ['z', 'y', 'x']}
+
+TRANSLATOR = os.path.join(common.VERIF, 'tools', 'py2coq_drift.py')
+GEN = os.path.join(common.COQ, 'Gen', 'drift.v')
+
+
+# ---------------------------------------------------------------------------
+# translator / build
+# ---------------------------------------------------------------------------
+def regenerate(chk):
+    """re-run the translator on the current source; returns (ok, text-or-log)"""
+    rc, out = common.sh([sys.executable, TRANSLATOR, '--repo', common.REPO, '--stdout'], timeout=60)
+    if rc != 0:
+        return False, out
+    with common.Lock(os.path.join(common.COQ, '.build.lock')):
+        old = open(GEN).read() if os.path.exists(GEN) else None
+        if old != out:
+            os.makedirs(os.path.dirname(GEN), exist_ok=True)
+            tmp = GEN + '.tmp%d' % os.getpid()
+            with open(tmp, 'w') as f:
+                f.write(out)
+            os.replace(tmp, GEN)
+            chk.tally('Gen/drift.v rewritten (source differs from last run)')
+        else:
+            chk.tally('Gen/drift.v unchanged')
+    return True, out
+
+
+def ensure_model(chk):
+    """the executable hand-written model is needed by the correspondence run even when the translation
+    or a proof about the generated functions is broken"""
+    def fresh(v):
+        vo = os.path.join(common.COQ, v + 'o')
+        return os.path.exists(vo) and os.path.getmtime(vo) >= os.path.getmtime(os.path.join(common.COQ, v))
+    files = ('Model/Drift.v', 'Model/DriftSpec.v')
+    if all(fresh(v) for v in files):
+        return True
+    with common.Lock(os.path.join(common.COQ, '.build.lock')):
+        for v in files:
+            rc, out = common.sh('timeout 300 coqc -Q . TP %s' % v, timeout=330, cwd=common.COQ)
+            if rc != 0:
+                chk.proof_broken(v, out)
+                return False
+    return True
+
+
+def build(chk):
+    """translator -> cone of Properties/C18.v; returns True when the executable model is available"""
+    ok, text = regenerate(chk)
+    if not ok:
+        chk.proof_broken('translation tools/py2coq_drift.py (compute_drift / subtract_drift in trackpy/motion.py or '
+                         'guess_pos_columns / pandas_sort in trackpy/utils.py left the translatable subset)', text)
+        chk.build = dict(obligations=0, discharged=0, assumptions=[], files=[], theorems=[])
+    else:
+        for attempt in range(3):
+            b = chk.coq()
+            if open(GEN).read() == text:
+                break
+            # another run (different TRACKPY_REPO) rewrote the generated file in between: redo
+            chk.violations = [v for v in chk.violations if not v[0].startswith('proof:')]
+            regenerate(chk)
+        chk.notes.append('Gen/drift.v sha1 %s generated from %s' % (hashlib.sha1(text.encode()).hexdigest()[:12], common.REPO))
+        if not b['ok']:
+            # say which statement about the generated functions no longer checks
+            with common.Lock(os.path.join(common.COQ, '.build.lock')):
+                rc, out = common.sh('timeout 600 make Proofs/DriftGen.vo 2>&1 | tail -25', timeout=630, cwd=common.COQ)
+            chk.notes.append('make Proofs/DriftGen.vo (generated functions = model): ' + out[-2500:])
+    return ensure_model(chk)
 
 
 # ---------------------------------------------------------------------------
@@ -484,7 +563,8 @@ def process(chk, cases):
 
 def run(chk):
     common.quiet_trackpy()
-    chk.coq()
+    if not build(chk):
+        return
     n = 260 if chk.tier == 'quick' else 3000
     cases = corpus() + [gen_case(chk.rng, chk.tier) for _ in range(n)]
     nt = process(chk, cases)
@@ -500,6 +580,7 @@ def run(chk):
         "measured table, and with a user table (frames dropped / added / values replaced / column subset). "
         "Each position column is one Coq case (model + declarative monitor). non-trivial = at least 4 rows and at least 2 measured frames; distinct by content")
     chk.assumptions += [
+        "route T: Gen/drift.v is produced from the current trackpy/motion.py (compute_drift, subtract_drift) and trackpy/utils.py (guess_pos_columns; pandas_sort pinned textually) by tools/py2coq_drift.py (trusted, fail-closed; subset, conventions and the list of pandas primitives in its docstring and in Model/PyDrift.v); the primitives carry the meaning of Model/Drift.v for all position columns at once (DriftI), smoothing (rolling mean) stays uninterpreted; Proofs/DriftGen.v proves generated = model column by column, incl. the caller's table being returned unchanged (inplace=False)",
         "one position column at a time: pandas diff / groupby.mean / cumsum / Series.sub act column-wise with row mask and groups depending only on particle and frame; the harness compares every position column with the scalar model and checks the set and order of drift columns",
         "float results are compared with the exact rational model within an a-priori bound 4*64*4*(n+2)^2*max|pos|*2^-53 (inputs are dyadic with <= 4 fractional bits, magnitudes <= 2^12); subtract_drift's result is additionally checked bit-exactly as position - drift (a single rounded operation)",
         "pandas primitives modelled by their meaning: sort_values on two keys is stable, groupby sorts keys, Series.sub(level='frame', fill_value=0) aligns on the frame level and leaves frames without a value unchanged (exercised by the run, not proved)",
@@ -511,7 +592,8 @@ def run(chk):
 
 def replay(chk, path):
     common.quiet_trackpy()
-    chk.coq()
+    if not build(chk):
+        return
     r = json.load(open(path))['replay']
     if 'case' not in r:
         print('replay: nothing executable in this replay file (proof/correspondence breakage): see its log field')
